@@ -166,6 +166,10 @@ def check(P: Project, R: Report) -> None:
             if len(loops_all) == 1:
                 verdict = (True, "*lines, buf = buf.split(LF); for line in lines", loops_all[0])
     R.need(verdict is not None, "the carry-over idiom of the read loop is written in a shape this rule cannot read (known: lines[-1]/lines[:-1], lines.pop(), *lines, buf = …)")
+    # the loop over the complete fragments must be the one that delivers them (decodes the JSON / hands the line on):
+    # a loop that only prepares another list (filtering, stripping) is a shape these rules do not follow further
+    if not any(isinstance(c_, ast.Call) and (call_name(c_).split(".")[-1] == "loads" or (call_name(c_).startswith("self.") and isinstance(c_.func, ast.Attribute))) for c_ in walk_local(verdict[2])):
+        raise AnalysisError("the complete fragments are post-processed into another list before they are delivered — a shape the carry-over rule cannot read")
     R.ob("R2", "the last fragment is carried over and exactly the complete fragments are processed, in order", verdict[0], f"{rel}:{verdict[2].lineno}", verdict[1], sample=f"R2 {rd.qual}: {verdict[1]}")
     line_loop = verdict[2]
     # every complete non-blank line reaches the JSON parser and then the gate
